@@ -100,6 +100,14 @@ fn engine_shard(id: &str, tier: &str, seed: u64, replay: Option<&serde_json::Val
             }
             out.errors.extend(errs);
         }
+        if id == "C07" && out.found.is_empty() && replay.map(|r| r["replay"]["origin"] == "locked-open" || r["replay"]["origin"] == "storage-api-same-version-id").unwrap_or(shard.k == 4 % shard.n) {
+            // a start while another program holds the database for longer than the lock-wait budget
+            if let Some(f) = checks_slow::locked_open_part("C07", &mut out.cov) {
+                out.found.push(f);
+            } else if let Some(f) = checks_c09::storage_api_same_version_id_part("C07", &mut out.cov) {
+                out.found.push(f);
+            }
+        }
         if id == "C18" && replay.is_none() && out.found.is_empty() && shard.k == 8 % shard.n {
             if let Some(f) = checks_e1::lock_held_part(&mut out.cov, "C18") {
                 out.found.push(f);
@@ -119,6 +127,8 @@ fn engine_shard(id: &str, tier: &str, seed: u64, replay: Option<&serde_json::Val
             if let Some(f) = checks_c09::id_space_overlap_part(&mut out.cov) {
                 out.found.push(f);
             } else if let Some(f) = checks_c09::shared_header_values_part(&mut out.cov) {
+                out.found.push(f);
+            } else if let Some(f) = checks_c09::storage_api_same_version_id_part("C09", &mut out.cov) {
                 out.found.push(f);
             }
         }
